@@ -502,6 +502,19 @@ pub fn run(args: &Args) {
                 other => sum.violation(ImplViolation { key: "using-statement-depends-on-previous".into(), input: whole.clone(), expected: format!("{:?}", String::from_utf8_lossy(&expected)), observed: format!("{:?}", other.map(|o| String::from_utf8_lossy(&o).to_string())) }),
             }
         }
+        // a field without a decimal point shows a fraction rounded to the nearest whole number, halves
+        // away from zero: the output is that of the rounded whole number itself
+        for f in ["##", "###", "#,###", "total ### units", "####"] {
+            for (txt, whole) in [("2.5", 3i64), ("0.5", 1), ("8.5#", 9), ("98.5", 99), ("1.5", 2), ("99.5", 100), ("2.4", 2), ("2.6", 3), ("0.4", 0), ("7.5#", 8), ("12.5", 13), ("0.25#", 0), ("123.5", 124)] {
+                let a = alone(&format!("PRINT USING \"{}\"; {}\n", f, txt));
+                let b = alone(&format!("PRINT USING \"{}\"; {}\n", f, whole));
+                evaluations += 2;
+                sum.count("using_fraction_in_whole_field");
+                if a.is_none() || a != b {
+                    sum.violation(ImplViolation { key: "using-fraction-rounding".into(), input: format!("PRINT USING \"{}\"; {}", f, txt), expected: format!("as for {}: {:?}", whole, b.map(|o| String::from_utf8_lossy(&o).to_string())), observed: format!("{:?}", a.map(|o| String::from_utf8_lossy(&o).to_string())) });
+                }
+            }
+        }
         // the same statement executed repeatedly by a loop
         for f in seq_fmts.iter() {
             let one = format!("I% = 1\nPRINT USING \"{}\"; I%\n", f);
@@ -524,6 +537,6 @@ pub fn run(args: &Args) {
     sum.write(
         &args.out,
         evaluations,
-        "PRINT histories as whole programs over screen, LPT1 and two files: every item of the pool (numbers of every type and sign, empty/short/13/14/15-byte strings, strings with CR, LF, CRLF inside and at either end) alone with every trailing separator on every device, followed by a second statement on the same device; pairs of items with each separator; seeded random histories of 1..6 statements with leading, trailing and consecutive separators interleaved across the four devices. PRINT USING: every format string over {# , . \\ ! blank a} up to length 4 (quick, sampled beyond length 2) / 5 (thorough) with integer and string values, plus longer valid formats; sequences of two or three PRINT USING statements (same or other format, value counts that do and do not fill all fields, also repeated by a loop) against the concatenation of the statements run alone. Output bytes of each device are compared with the Coq model and with an independent re-statement of the column rules. Non-trivial = history of >= 2 statements / every USING case; distinct by program text.",
+        "PRINT histories as whole programs over screen, LPT1 and two files: every item of the pool (numbers of every type and sign, empty/short/13/14/15-byte strings, strings with CR, LF, CRLF inside and at either end) alone with every trailing separator on every device, followed by a second statement on the same device; pairs of items with each separator; seeded random histories of 1..6 statements with leading, trailing and consecutive separators interleaved across the four devices. PRINT USING: every format string over {# , . \\ ! blank a} up to length 4 (quick, sampled beyond length 2) / 5 (thorough) with integer and string values, plus longer valid formats; sequences of two or three PRINT USING statements (same or other format, value counts that do and do not fill all fields, also repeated by a loop) against the concatenation of the statements run alone; fractions (ties and others, SINGLE and DOUBLE) in fields without a decimal point against the rounded whole number. Output bytes of each device are compared with the Coq model and with an independent re-statement of the column rules. Non-trivial = history of >= 2 statements / every USING case; distinct by program text.",
     );
 }
